@@ -36,7 +36,7 @@ from mc.common import pmap
 
 SIZES   = [(1, 1), (1, 2), (2, 1), (1, 7), (3, 5), (9, 16), (17, 33)]    # (height, width); 9x16 is the design's "16x9"; 17x33 spans several JPEG MCUs
 FORMATS = ['GRAY', 'BGR', 'RGB']
-LAYOUTS = ['contig', 'strided', 'negstride', 'readonly', 'ro_strided', 'jpg_undecoded', 'jpg_decoded', 'ro_cached_jpg']
+LAYOUTS = ['contig', 'strided', 'negstride', 'readonly', 'ro_strided', 'fortran', 'transposed', 'jpg_undecoded', 'jpg_decoded', 'ro_cached_jpg']
 OUTS    = [None, True, False]
 TRANS   = ['direct', 'wire']
 JPG_TOL = 6.0
@@ -67,6 +67,8 @@ REDUCED = [
     ('BGR', 3, 5, 'contig'),
     ('RGB', 3, 5, 'strided'),
     ('BGR', 2, 1, 'readonly'),
+    ('BGR', 3, 5, 'fortran'),
+    ('GRAY', 3, 5, 'transposed'),
     ('RGB', 1, 2, 'jpg_undecoded'),
     ('GRAY', 3, 5, 'jpg_decoded'),
     ('BGR', 9, 16, 'ro_cached_jpg'),
@@ -113,6 +115,12 @@ def make_frame(kind, data):
         big[::2, ::2] = pix
         img = big[::2, ::2]
         img.flags.writeable = False
+
+    elif layout == 'fortran':                  # column-major memory, same logical pixels (np.asfortranarray, a result of some cv2 / numpy ops)
+        img = np.asfortranarray(pix)
+
+    elif layout == 'transposed':               # a transposed view of a row-major buffer (img.swapaxes(0, 1) / gray.T): rows and columns swapped in memory only
+        img = np.ascontiguousarray(pix.swapaxes(0, 1)).swapaxes(0, 1)
 
     elif layout == 'negstride':
         img = (np.ascontiguousarray(pix[:, ::-1])[:, ::-1] if fmt == 'GRAY' else
